@@ -196,11 +196,13 @@ class Ctx:
             raise Infra("replay failed: " + r.stderr[-1000:])
         return json.loads(r.stdout.strip().split("\n")[-1])
 
-    def replay_raw(self, driver, desc, out=None):
+    def replay_raw(self, driver, desc, out=None, variant=None):
         pf = tempfile.mktemp(prefix="sched-", suffix=".json", dir=self.scratch)
         with open(pf, "w") as f:
             json.dump(desc, f, separators=(",", ":"))
         cmd = [self.drive_bin, "-p", driver, "-replay", "@" + pf]
+        if variant:
+            cmd += ["-var", variant]
         if out:
             cmd += ["-replay-out", out]
         r = subprocess.run(cmd, capture_output=True, text=True, timeout=300)
@@ -483,8 +485,8 @@ def check_recordings(ctx, driver, module, files, open_kf, variant_of=lambda f: "
                 body, observed = rep
                 rp = write_replay_body(ctx, body)
                 log("unexplained execution at line %d of %s: %s observed=%s" % (
-                    target, os.path.basename(f), json.dumps(body, separators=(",", ":"))[:500],
-                    json.dumps(observed, separators=(",", ":"))[:500]))
+                    target, os.path.basename(f), json.dumps(body, separators=(",", ":"))[:330],
+                    json.dumps(observed, separators=(",", ":"))[:260]))
                 violation(ctx, rp)
                 nviol += 1
                 ctx.states += r["distinct"]
@@ -580,7 +582,7 @@ def run_replay_file(ctx, rf):
         ctx.setup()
     if body["kind"] == "sched":
         out = os.path.join(ctx.scratch, "t", "replay.ndjson")
-        now = ctx.replay_raw(body["driver"], body["sched"], out)
+        now = ctx.replay_raw(body["driver"], body["sched"], out, variant=body.get("var"))
         opn, _ = known_findings(ctx.prop)
         cfg = ctx.trace_cfg(body["module"], [k["id"] for k in opn])
         r = ctx.tlc(body["module"], cfg=cfg, env={"TRACE": out}, workers=1, xmx="1g")
